@@ -1,7 +1,310 @@
-"""TLA+ model of the reader-writer protocol + conformance replay (built in a
-later step; until then the model stage reports that it did not run - the
-verdict of C20 never depends on it)."""
+"""TLA+ model of the reader-writer protocol (models/RWLock.tla) bound to the
+implementation: TLC checks the model (type invariant, mutual exclusion, locks
+free at the end, deadlock freedom, termination under weak fairness) and dumps
+its labelled state graph; EVERY edge of that graph is then replayed against
+the real RWLock under the scheduler, comparing after each model step the
+abstraction of the real state (per-thread completed lock operations, the five
+mutex bits, both counters, who is inside) with the model state, and the set of
+threads that can take a step.  The verdict of C20 never depends on this stage:
+a disagreement is recorded as model_divergence in the evidence."""
+import os
+import re
+import shutil
+import subprocess
+import tempfile
+import time
+
+from ..engine import sched as S
+
+HERE = os.path.dirname(os.path.dirname(os.path.dirname(os.path.abspath(__file__))))
+TLA = os.path.join(HERE, "models", "RWLock.tla")
+
+
+def run_tlc(nr, nw, rounds, workdir):
+    shutil.copy(TLA, os.path.join(workdir, "RWLock.tla"))
+    with open(os.path.join(workdir, "RWLock.cfg"), "w") as f:
+        f.write("CONSTANTS NR = %d NW = %d Rounds = %d\n" % (nr, nw, rounds))
+        f.write("SPECIFICATION Spec\n")
+        f.write("INVARIANT TypeOK MutualExclusion FreeAtEnd\n")
+        f.write("PROPERTY Termination\n")
+    dot = os.path.join(workdir, "graph.dot")
+    r = subprocess.run(
+        ["tlc", "-workers", "1", "-noGenerateSpecTE", "-metadir",
+         os.path.join(workdir, "meta"), "-dump", "dot,actionlabels", dot,
+         "RWLock.tla"], cwd=workdir, stdout=subprocess.PIPE,
+        stderr=subprocess.STDOUT, text=True, timeout=900)
+    ok = "Model checking completed. No error has been found." in r.stdout
+    m = re.search(r"(\d+) distinct states found", r.stdout)
+    return ok, int(m.group(1)) if m else 0, dot, r.stdout[-1500:]
+
+
+def parse_dot(path):
+    """-> (init id, {id: state dict}, [(src, dst, thread)])"""
+    states, edges = {}, []
+    init = None
+    node_re = re.compile(r'^(-?\d+) \[label="(.*?)"')
+    edge_re = re.compile(r'^(-?\d+) -> (-?\d+) \[label="Step\((\d+)\)"')
+    fin_re = re.compile(r'^(-?\d+) -> (-?\d+) \[label="Finished"')
+    for line in open(path):
+        m = edge_re.match(line)
+        if m:
+            edges.append((m.group(1), m.group(2), int(m.group(3))))
+            continue
+        if fin_re.match(line):
+            continue
+        m = node_re.match(line)
+        if m:
+            lab = m.group(2)
+            st = {}
+            for part in lab.split("\\n"):
+                part = part.replace("/\\\\ ", "").strip()
+                k, v = part.split(" = ", 1)
+                if v.startswith("<<"):
+                    st[k] = tuple(int(x) for x in v[2:-2].split(",") if x.strip())
+                else:
+                    st[k] = int(v)
+            states[m.group(1)] = st
+            if init is None and "style = filled" in line:
+                init = m.group(1)
+    return init, states, edges
+
+
+class Replayer(object):
+    """drives the real RWLock along a model path"""
+
+    def __init__(self, nr, nw, rounds, fields):
+        self.nr, self.nw, self.rounds, self.fields = nr, nw, rounds, fields
+
+    def run_path(self, path, path_states, out_edges):
+        """path: thread ids (1-based) ; path_states[k]: model state after k
+        steps ; out_edges: model state id -> set of threads with an edge.
+        Returns (validated steps, mismatch or None)"""
+        from . import c20
+        rw = c20.rw_module()
+        sc = S.Sched(trace_files=("_rwlock.py",), mutable_fields=self.fields)
+        rw.threading = S.ThreadingShim(sc)
+        lock = rw.RWLock()
+        names = {}
+        try:
+            d = vars(lock)
+            rs, ws = d["_RWLock__read_switch"], d["_RWLock__write_switch"]
+            names = {1: vars(rs)["_LightSwitch__mutex"].name,
+                     2: vars(ws)["_LightSwitch__mutex"].name,
+                     3: d["_RWLock__no_readers"].name,
+                     4: d["_RWLock__no_writers"].name,
+                     5: d["_RWLock__readers_queue"].name}
+            counters = lambda: (vars(rs)["_LightSwitch__counter"],
+                                vars(ws)["_LightSwitch__counter"])
+        except (KeyError, AttributeError) as e:
+            return 0, "source no longer has the protocol's shape: %r" % (e,)
+        by_name = {l.name: l for l in sc.locks}
+        kinds = ["R"] * self.nr + ["W"] * self.nw
+        inside = set()
+        state = {"k": 0, "mismatch": None, "validated": 0}
+        first_lock = {"R": 5, "W": 2}
+
+        def msteps():
+            per = [0] * len(kinds)
+            for ev in sc.events:
+                if ev[1] in ("acquired", "released", "cs"):
+                    per[ev[0]] += 1
+            return per
+
+        def abstraction():
+            per = msteps()
+            lk = tuple(1 if by_name[names[i]].owner is not None else 0
+                       for i in (1, 2, 3, 4, 5))
+            rc, wc = counters()
+            return (tuple(per), lk, rc, wc, tuple(sorted(inside)))
+
+        def model_abs(st):
+            ins = tuple(sorted(i for i, p in enumerate(st["pc"])
+                               if p in (7, 24)))
+            return (st["steps"], st["lk"], st["rc"], st["wc"], ins)
+
+        def impl_enabled():
+            en = set()
+            for u in range(len(kinds)):
+                if sc.done[u]:
+                    continue
+                pcu = sc.pc[u]
+                if pcu == ("start",):
+                    l = by_name[names[first_lock[kinds[u]]]]
+                    if l.owner is None:
+                        en.add(u + 1)
+                    continue
+                if pcu[0] == "done" or pcu == ("aborted",):
+                    continue
+                op, lname = pcu[1], pcu[2]
+                if op == "blocked":
+                    lname = pcu[2]
+                    if by_name[lname].owner is None:
+                        en.add(u + 1)
+                elif op == "acquire":
+                    if by_name[lname].owner is None:
+                        en.add(u + 1)
+                else:
+                    en.add(u + 1)
+            return en
+
+        def chooser(s, cur, order, label, cur_enabled):
+            internal = (len(label) > 1 and label[1] in
+                        ("LOAD_ATTR", "STORE_ATTR", "DELETE_ATTR", "line"))
+            if internal and cur_enabled and cur in order:
+                return cur                      # finish the current model step
+            if label[-1:] == ("exit",) or (len(label) > 1 and label[1] == "exit"):
+                pass
+            k = sum(msteps())
+            if state["mismatch"]:
+                return "cut"
+            # boundary: compare with the model state after k steps
+            if k < len(path_states):
+                sid, st = path_states[k]
+                a, m = abstraction(), model_abs(st)
+                if a != m:
+                    state["mismatch"] = ("state after %d steps" % k, m, a)
+                    return "cut"
+                # a thread that ran its last operation but has not yet
+                # reached its exit point is not enabled in the model
+                ien = set(t for t in impl_enabled()
+                          if st["pc"][t - 1] != 99)
+                men = out_edges.get(sid, set())
+                if ien != men:
+                    state["mismatch"] = ("enabled set after %d steps" % k,
+                                         sorted(men), sorted(ien))
+                    return "cut"
+                state["validated"] = k
+            if k >= len(path):
+                return "cut"
+            want = path[k] - 1
+            if want in order:
+                return want
+            # the wanted thread may have finished its program but not yet
+            # passed its exit point, or be at its exit: let pending exits run
+            for u in order:
+                if sc.pc[u][0] != "start" and len(sc.pc[u]) > 1 and \
+                        sc.pc[u][1] == "exit":
+                    return u
+            if cur is not None and cur in order and not cur_enabled:
+                return cur
+            state["mismatch"] = ("model step by thread %d after %d steps: "
+                                 "not enabled in the implementation" %
+                                 (path[k], k), path[k], sorted(order))
+            return "cut"
+
+        def body(i):
+            kind = kinds[i]
+            for rd in range(self.rounds):
+                sc.progress[i] = (rd, "acq")
+                (lock.reader_acquire if kind == "R" else lock.writer_acquire)()
+                inside.add(i)
+                sc.progress[i] = (rd, "in")
+                sc.switch_point(("cs", kind))
+                sc.events.append((i, "cs", None))
+                inside.discard(i)
+                sc.progress[i] = (rd, "rel")
+                (lock.reader_release if kind == "R" else lock.writer_release)()
+            return "ok"
+
+        sc.chooser = chooser
+        sc.run([body] * len(kinds))
+        if sc.errors and not state["mismatch"]:
+            state["mismatch"] = ("implementation raised", None, sc.errors[0][1])
+        return state["validated"], state["mismatch"]
+
+
+def conformance(nr, nw, rounds, fields, dot):
+    init, states, edges = parse_dot(dot)
+    out = {}
+    succ = {}
+    for (a, b, t) in edges:
+        out.setdefault(a, set()).add(t)
+        succ.setdefault(a, []).append((t, b))
+    # BFS spanning tree for shortest paths to every state
+    parent = {init: None}
+    order = [init]
+    for s in order:
+        for (t, b) in succ.get(s, []):
+            if b not in parent:
+                parent[b] = (s, t)
+                order.append(b)
+
+    def path_to(s):
+        p = []
+        while parent[s] is not None:
+            s, t = parent[s]
+            p.append((s, t))
+        p.reverse()
+        return p
+
+    uncovered = set((a, t) for (a, b, t) in edges)
+    rp = Replayer(nr, nw, rounds, fields)
+    replayed = 0
+    runs = 0
+    # deepest-first: long paths cover many edges
+    for s in reversed(order):
+        for (t, b) in succ.get(s, []):
+            if (s, t) not in uncovered:
+                continue
+            steps = path_to(s) + [(s, t)]
+            cur = b
+            # extend greedily through uncovered edges
+            while True:
+                nxt = [(tt, bb) for (tt, bb) in succ.get(cur, [])
+                       if (cur, tt) in uncovered]
+                if not nxt:
+                    break
+                tt, bb = nxt[0]
+                steps.append((cur, tt))
+                cur = bb
+            path = [tt for (_, tt) in steps]
+            sids = [ss for (ss, _) in steps] + [cur]
+            pstates = [(sid, states[sid]) for sid in sids]
+            validated, mismatch = rp.run_path(path, pstates, out)
+            runs += 1
+            if mismatch:
+                return dict(edges=len(edges), edges_replayed=replayed,
+                            runs=runs, model_divergence=dict(
+                                config=[nr, nw, rounds], what=mismatch[0],
+                                model=str(mismatch[1]), impl=str(mismatch[2]),
+                                path=path[:validated + 2]))
+            for (ss, tt) in steps:
+                if (ss, tt) in uncovered:
+                    uncovered.discard((ss, tt))
+                    replayed += 1
+    return dict(edges=len(edges), edges_replayed=replayed, runs=runs,
+                states=len(states))
 
 
 def run(ctx, fields):
-    return {"status": "model stage not built yet", "edges_replayed": 0}
+    configs = ctx.pick([(1, 1, 1), (2, 1, 1), (1, 2, 1)],
+                       [(1, 1, 2), (2, 1, 1), (1, 2, 1), (2, 2, 1), (2, 1, 2),
+                        (3, 1, 1)])
+    res = {"configs": {}, "edges_replayed": 0, "model_states": 0,
+           "tlc_checked": ["TypeOK", "MutualExclusion", "FreeAtEnd",
+                           "deadlock freedom", "Termination (WF on every "
+                           "thread)"]}
+    if shutil.which("tlc") is None:
+        res["model_divergence"] = "tlc not available"
+        return res
+    t0 = time.time()
+    for (nr, nw, rounds) in configs:
+        wd = tempfile.mkdtemp(prefix="tlc_", dir="/var/tmp")
+        try:
+            ok, nstates, dot, tail = run_tlc(nr, nw, rounds, wd)
+            label = "r%dw%dx%d" % (nr, nw, rounds)
+            if not ok:
+                res["configs"][label] = {"tlc": "FAILED", "output": tail}
+                res["model_divergence"] = "TLC reports an error in the model"
+                continue
+            c = conformance(nr, nw, rounds, fields, dot)
+            c["tlc_states"] = nstates
+            res["configs"][label] = c
+            res["edges_replayed"] += c.get("edges_replayed", 0)
+            res["model_states"] += nstates
+            if "model_divergence" in c:
+                res["model_divergence"] = c["model_divergence"]
+        finally:
+            shutil.rmtree(wd, ignore_errors=True)
+    res["seconds"] = round(time.time() - t0, 1)
+    return res
